@@ -293,6 +293,7 @@ func TestC15A_RLP(t *testing.T) {
 	seeds := rlpSeeds()
 	defer surveyDump(t)
 	feed := func(rt *rapid.T, input []byte, how, sig string) {
+		input = exact(input)
 		for _, name := range names {
 			e := ents[name]
 			p := &probe{part: "rlp", entry: name, input: input, note: how}
